@@ -35,7 +35,11 @@ PREAMBLE = r"""
     fn ok_empty_str(r: &R) -> bool { matches!(r, Ok(Value::String(x)) if x.is_empty()) }
     fn err_type(r: &R) -> bool { matches!(r, Err(Error::InvalidType)) }
     fn err_div0(r: &R) -> bool { matches!(r, Err(Error::DivisionByZero)) }
-    fn err_oob(r: &R) -> bool { matches!(r, Err(Error::ValueOutOfBounds(..))) }
+    // "out of the representable range": the statement's table has two error classes for it (invalid cast, out of bounds);
+    // which of the two a function picks is not part of the property
+    fn err_oob(r: &R) -> bool { matches!(r, Err(Error::ValueOutOfBounds(..)) | Err(Error::InvalidCast(..))) }
+    fn err_range(r: &R) -> bool { err_oob(r) }
+    // a value that cannot be converted at all (not a number / date): invalid cast
     fn err_cast(r: &R) -> bool { matches!(r, Err(Error::InvalidCast(..))) }
     fn is_err(r: &R) -> bool { r.is_err() }
     // equality helpers may return Result<bool> or Result<Value>
@@ -194,7 +198,7 @@ def table(variant, tags):
             return Spec("ok_int(&r, a)")
         if t == ("Float",):
             rng = "(a >= -170141183460469231731687303715884105728.0 && a < 170141183460469231731687303715884105728.0)"
-            return Spec(f"if {rng} {{ ok_int(&r, a.trunc() as i128) }} else {{ err_cast(&r) }}",
+            return Spec(f"if {rng} {{ ok_int(&r, a.trunc() as i128) }} else {{ err_range(&r) }}",
                         c01=f"if {rng} {{ ok_int(&r, a.trunc() as i128) }} else {{ is_err(&r) }}",
                         covers=[(rng, "in range"), ("a.is_nan()", "NaN"), ("a >= 170141183460469231731687303715884105728.0", "too large")])
         if t == ("Decimal",):
@@ -217,7 +221,7 @@ def table(variant, tags):
     if variant == "Dec":
         if t == ("Int",):
             fits = "(a > -79228162514264337593543950336 && a < 79228162514264337593543950336)"
-            return Spec(f"if {fits} {{ matches!(&r, Ok(Value::Decimal(x)) if x.mantissa() == a && x.scale() == 0) }} else {{ err_cast(&r) }}",
+            return Spec(f"if {fits} {{ matches!(&r, Ok(Value::Decimal(x)) if x.mantissa() == a && x.scale() == 0) }} else {{ err_range(&r) }}",
                         c01=f"if {fits} {{ matches!(&r, Ok(Value::Decimal(x)) if x.mantissa() == a && x.scale() == 0) }} else {{ is_err(&r) }}",
                         covers=[(fits, "fits 96 bits"), (f"!{fits}", "does not fit")])
         if t == ("Decimal",):
@@ -230,9 +234,9 @@ def table(variant, tags):
     if variant == "DateTime":
         if t == ("Int",):
             rng = "(a >= -8334601228800 && a <= 8210266876799)"
-            return Spec(f"if {rng} {{ ok_dt(&r, &DateTime::from_timestamp(a as i64, 0).unwrap()) }} else {{ err_cast(&r) }}",
-                        kexp="if a >= i64::MIN as i128 && a <= i64::MAX as i128 { rec_ts(a as i64) && (if ret_some { ok_dt(&r, &ret_dt) } else { err_cast(&r) }) } "
-                             "else { rec_n() == 0 && err_cast(&r) }",
+            return Spec(f"if {rng} {{ ok_dt(&r, &DateTime::from_timestamp(a as i64, 0).unwrap()) }} else {{ err_range(&r) }}",
+                        kexp="if a >= i64::MIN as i128 && a <= i64::MAX as i128 { rec_ts(a as i64) && (if ret_some { ok_dt(&r, &ret_dt) } else { err_range(&r) }) } "
+                             "else { rec_n() == 0 && err_range(&r) }",
                         stubs=[("chrono::DateTime::<chrono::Utc>::from_timestamp", "st_from_ts")], pre=PRE_DRAW_DT,
                         c01r=f"if {rng} {{ matches!(&r, Ok(Value::DateTime(_))) }} else {{ is_err(&r) }}",
                         c01=f"if {rng} {{ ok_dt(&r, &DateTime::from_timestamp(a as i64, 0).unwrap()) }} else {{ is_err(&r) }}",
@@ -247,7 +251,7 @@ def table(variant, tags):
     if variant == "Duration":
         if t == ("Int",):
             lim = "9223372036854775"  # i64::MAX / 1000: TimeDelta stores milliseconds in range
-            return Spec(f"if a >= -{lim} && a <= {lim} {{ matches!(&r, Ok(Value::Duration(d)) if d.num_seconds() as i128 == a && d.subsec_nanos() == 0) }} else {{ err_cast(&r) }}",
+            return Spec(f"if a >= -{lim} && a <= {lim} {{ matches!(&r, Ok(Value::Duration(d)) if d.num_seconds() as i128 == a && d.subsec_nanos() == 0) }} else {{ err_range(&r) }}",
                         c01="match &r { Ok(Value::Duration(d)) => d.num_seconds() as i128 == a, Ok(_) => false, Err(_) => true }",
                         covers=[("matches!(&r, Ok(_))", "representable"), ("a > i64::MAX as i128", "beyond 64 bits")])
         if t == ("Duration",):
